@@ -675,3 +675,41 @@ func GenLexInputs(r *rand.Rand, g *Grammar, n int) [][]byte {
 	}
 	return out
 }
+
+// NestedLexGrammar: one token whose pattern nests brackets depth levels deep (groups, options,
+// repetitions mixed), a second short token and white space. The front end's parse stack, the
+// item closure and the NFA of the reference all meet the same depth.
+func NestedLexGrammar(r *rand.Rand, depth int) *Grammar {
+	letters := []rune("abcdefgh")
+	var build func(d int) *Pattern
+	build = func(d int) *Pattern {
+		c := letters[d%len(letters)]
+		if d == depth {
+			return Seq(Lit(c))
+		}
+		sub := build(d + 1)
+		var inner Term
+		switch r.Intn(3) {
+		case 0:
+			inner = Group(sub)
+		case 1:
+			inner = Opt(sub)
+		default:
+			inner = Rep(sub)
+		}
+		switch r.Intn(3) {
+		case 0:
+			return Seq(Lit(c), inner)
+		case 1:
+			return Seq(Lit(c), inner, Lit(c))
+		default:
+			return Alts([]Term{Lit(c), inner}, []Term{Lit(letters[(d+3)%len(letters)])})
+		}
+	}
+	g := &Grammar{}
+	g.Lex = append(g.Lex,
+		LexDef{Kind: DTok, Name: "deep", Pat: build(0)},
+		LexDef{Kind: DTok, Name: "num", Pat: Seq(Rng('0', '9'), Rep(Seq(Rng('0', '9'))))},
+		LexDef{Kind: DIgn, Name: "!ws", Pat: Alts([]Term{Lit(' ')}, []Term{Lit('\n')})})
+	return g
+}
